@@ -69,7 +69,7 @@ Definition split_key (key : string) : option (string * string * string * string)
   end.
 
 (* ---------- selector (selector.go) ---------- *)
-Definition get_annotations (o : json) : smap :=
+Definition annots_of (o : json) : smap :=
   match string_map_at o ["metadata"; "annotations"] with Some m => m | None => [] end.
 
 (* the maps are keyed by "Kind.group"; a later rule for the same key replaces an earlier one *)
@@ -82,7 +82,7 @@ Definition rule_for (c : dcfg) (o : json) : option drule :=
 Definition d_matches (c : dcfg) (o : json) : bool :=
   match rule_for c o with
   | None => false
-  | Some r => sel_matches (rl_label_sel r) (get_labels o) && sel_matches (rl_annot_sel r) (get_annotations o)
+  | Some r => sel_matches (rl_label_sel r) (get_labels o) && sel_matches (rl_annot_sel r) (annots_of o)
   end.
 
 (* "doesn't match our selector and doesn't have our finalizer": not ours *)
@@ -191,7 +191,7 @@ Definition hook_request_d (parent : json) (observed related : umap) (finalizing 
         ("object", parent);
         ("related", convert (get_ns parent) related)].
 
-Definition is_some {A} (x : option A) : bool := match x with Some _ => true | None => false end.
+Definition opt_is_some {A} (x : option A) : bool := match x with Some _ => true | None => false end.
 
 Definition d_finalizing (c : dcfg) (parent : json) : bool :=
   dc_has_finalize c && (is_deleting parent || negb (d_matches c parent)).
@@ -205,7 +205,7 @@ Definition call_hook_d (c : dcfg) (parent : json) (observed related : umap) : pr
                    match decode_decorator body with
                    | None => Ret DHErr
                    | Some r => Ret (DHResp (mkDR (dr_labels r) (dr_annotations r) (dr_status r)
-                                       (map (default_ns (get_ns parent)) (filter is_some (dr_attachments r)))
+                                       (map (default_ns (get_ns parent)) (filter opt_is_some (dr_attachments r)))
                                        (dr_resync r) (dr_finalized r)))
                    end
                | _ => Ret DHErr                 (* a 429 is an ordinary error for the decorator *)
@@ -247,7 +247,7 @@ Definition set_smap_at (o : json) (path : list string) (m : smap) : json :=
   | _ => o
   end.
 Definition set_labels (o : json) (m : smap) : json := set_smap_at o ["metadata"; "labels"] m.
-Definition set_annotations (o : json) (m : smap) : json := set_smap_at o ["metadata"; "annotations"] m.
+Definition set_annots (o : json) (m : smap) : json := set_smap_at o ["metadata"; "annotations"] m.
 
 Definition set_status (o : json) (st : json) : json :=
   match o with JObj om => JObj (aset "status" st om) | _ => o end.
@@ -280,7 +280,7 @@ Definition strip_finalizer (f : string) (o : json) : json :=
 
 (* the object sent with the requests: the (cached) target with the merged maps and the status *)
 Definition decorated (parent : json) (labels annots : smap) (status : json) : json :=
-  set_status (set_annotations (set_labels parent labels) annots) status.
+  set_status (set_annots (set_labels parent labels) annots) status.
 
 (* what the response asks of the target, relative to the object the sync holds *)
 Record target_plan := mkPlan {
@@ -291,7 +291,7 @@ Record target_plan := mkPlan {
 Definition plan_target (parent : json) (parent_status : json) (r : dresp) : target_plan :=
   let st := if is_null (dr_status r) then parent_status else dr_status r in
   let '(ls, lch) := update_string_map (get_labels parent) (dr_labels r) in
-  let '(ans, ach) := update_string_map (get_annotations parent) (dr_annotations r) in
+  let '(ans, ach) := update_string_map (annots_of parent) (dr_annotations r) in
   mkPlan ls lch ans ach st (negb (jeqb parent_status st)).
 
 Definition plan_writes (c : dcfg) (parent : json) (r : dresp) (p : target_plan) : bool :=
@@ -326,10 +326,10 @@ Definition update_target (c : dcfg) (rl : drule) (parent : json) (r : dresp) (p 
 
 (* ---------- marker stamping on the desired attachments ---------- *)
 Definition stamp_marker (c : dcfg) (o : json) : json :=
-  let ann := get_annotations o in
+  let ann := annots_of o in
   if String.eqb (match slookup decorator_controller_annotation ann with Some v => v | None => "" end) (dc_name c)
   then o
-  else set_annotations o (sset decorator_controller_annotation (dc_name c) ann).
+  else set_annots o (sset decorator_controller_annotation (dc_name c) ann).
 
 Definition stamp_all (c : dcfg) (m : umap) : umap :=
   map (fun g => match g with (av, kd, os) => (av, kd, map (fun p => (fst p, stamp_marker c (snd p))) os) end) m.
